@@ -62,6 +62,9 @@ func stripAssert(v ssa.Value) ssa.Value {
 // invokeEvent names interface method calls by their resolved method object.
 func invokeEvent(m map[*types.Func]string) func(in ssa.Instruction) string {
 	return func(in ssa.Instruction) string {
+		if _, isGo := in.(*ssa.Go); isGo {
+			return ""
+		}
 		if cc := callCommon(in); cc != nil && cc.IsInvoke() {
 			if n, ok := m[cc.Method]; ok {
 				return n
@@ -214,131 +217,11 @@ func c07(c *ctx) {
 
 	// ------------------------------------------------------------------ R3
 	r.Rule("R3", "COVER", "ResetCaches assigns every field of the FSM cache (sharedCache excepted: height-keyed and immutable); Reset = new slash tracker + ResetCaches + store.Reset", 8)
-	cacheT := c.p.Named("fsm", "cache")
-	if r.Anchor(cacheT != nil, "fsm.cache") {
-		written := map[string]bool{}
-		instrs(resetCaches, func(in ssa.Instruction) {
-			if fv, base, _ := storeField(in); fv != nil {
-				if nt := namedOf(base.Type()); nt != nil && nt.Obj() == cacheT.Obj() {
-					written[fv.Name()] = true
-				}
-			}
-		})
-		c.coverCheck("R3", "ResetCaches", cacheT, allFields(cacheT), written, map[string]string{"sharedCache": "height-keyed historical validator lists, never mutated by a borrower (C13.R1)"}, c.p.Pos(resetCaches.Pos()))
-	}
-	fsmReset := c.fn("fsm.(*StateMachine).Reset")
-	storeResetM := c.p.IfaceMethod("lib", "StoreI", "Reset")
-	if fsmReset != nil && r.Anchor(storeResetM != nil, "lib.StoreI.Reset") {
-		c.mpt(mptSpec{
-			rule: "R3", fn: fsmReset,
-			events:  evSet{"ResetCaches": {resetCaches}},
-			extraEv: firstOf(storeFieldEvent("slashTracker=", slashF), invokeEvent(map[*types.Func]string{storeResetM: "store.Reset"})),
-			target: func(in ssa.Instruction, st *PState, e *pathEngine) string {
-				if _, ok := in.(*ssa.Return); ok {
-					return "exit"
-				}
-				return ""
-			},
-			reqs:      func(string) []string { return []string{"seen:ResetCaches", "seen:slashTracker=", "seen:store.Reset"} },
-			minTarget: 1,
-		})
-	}
+	c.ruleCachesCleared("R3")
 
 	// ------------------------------------------------------------------ R4
 	r.Rule("R4", "PAIR", "rejected proposals/blocks leave no trace: ValidateProposal resets before touching state; ProduceProposal and CommitCertificate defer FSM.Reset before any apply; CommitCertificate resets before a fresh ApplyAndValidateBlock; RoundInterrupt's controller hook resets; Store.Commit resets on every error exit after the batch was touched", 6)
-	validateProposal := c.fn("controller.(*Controller).ValidateProposal")
-	produceProposal := c.fn("controller.(*Controller).ProduceProposal")
-	commitCert := c.fn("controller.(*Controller).CommitCertificate")
-	commitCertPar := c.fnQuiet("controller.(*Controller).CommitCertificateParallel")
-	applyAndValidate := c.fn("controller.(*Controller).ApplyAndValidateBlock")
-	indexQC := c.fn("store.(*Store).IndexQC")
-	indexBlock := c.fn("store.(*Store).IndexBlock")
-	loadProposal := c.fnQuiet("controller.(*Controller).loadProposalBlockLocked")
-	if fsmReset != nil && validateProposal != nil && applyAndValidate != nil {
-		c.mpt(mptSpec{
-			rule: "R4", fn: validateProposal,
-			events:    evSet{"Reset": {fsmReset}},
-			target:    tgtCall("ApplyAndValidateBlock", applyAndValidate),
-			reqs:      func(string) []string { return []string{"seen:Reset"} },
-			minTarget: 1,
-		})
-	}
-	if fsmReset != nil && produceProposal != nil && loadProposal != nil {
-		c.mpt(mptSpec{
-			rule: "R4", fn: produceProposal,
-			events:    evSet{"Reset": {fsmReset}},
-			target:    tgtCall("loadProposalBlockLocked", loadProposal),
-			reqs:      func(string) []string { return []string{"deferred:Reset"} },
-			minTarget: 1,
-		})
-	}
-	for _, cc := range []*ssa.Function{commitCert, commitCertPar} {
-		if cc == nil || fsmReset == nil || applyAndValidate == nil || indexQC == nil || indexBlock == nil {
-			continue
-		}
-		c.mpt(mptSpec{
-			rule: "R4", fn: cc,
-			events: evSet{"Reset": {fsmReset}},
-			target: tgtAny(tgtCall("ApplyAndValidateBlock", applyAndValidate), tgtCall("IndexQC", indexQC), tgtCall("IndexBlock", indexBlock)),
-			reqs: func(l string) []string {
-				if l == "ApplyAndValidateBlock" {
-					return []string{"deferred:Reset", "seen:Reset"}
-				}
-				return []string{"deferred:Reset"}
-			},
-			minTarget: 3,
-		})
-	}
-	// Store.Commit: every error return after setCommitID touched the batch calls Reset
-	storeCommit := c.fn("store.(*Store).Commit")
-	storeReset := c.fn("store.(*Store).Reset")
-	setCommitID := c.fn("store.(*Store).setCommitID")
-	if storeCommit != nil && storeReset != nil && setCommitID != nil {
-		c.mpt(mptSpec{
-			rule: "R4", fn: storeCommit,
-			events: evSet{"setCommitID": {setCommitID}, "Reset": {storeReset}},
-			target: func(in ssa.Instruction, st *PState, e *pathEngine) string {
-				ret, ok := in.(*ssa.Return)
-				if !ok || in.Parent() != e.r.Fn {
-					return ""
-				}
-				if e.RetNil(ret, errIdx(e.r.Fn), st) == True {
-					return "ok-return"
-				}
-				return "error-return"
-			},
-			reqs: func(l string) []string {
-				if l == "error-return" {
-					return []string{"!seen:setCommitID|seen:Reset"}
-				}
-				return []string{"seen:Reset"}
-			},
-			minTarget: 2,
-		})
-	}
-	// RoundInterrupt -> Controller.ResetFSM
-	roundInterrupt := c.fn("bft.(*BFT).RoundInterrupt")
-	resetFSMm := c.p.IfaceMethod("bft", "Controller", "ResetFSM")
-	if roundInterrupt != nil && r.Anchor(resetFSMm != nil, "bft.Controller.ResetFSM") {
-		c.mpt(mptSpec{
-			rule: "R4", fn: roundInterrupt,
-			extraEv: invokeEvent(map[*types.Func]string{resetFSMm: "ResetFSM"}),
-			events:  evSet{},
-			target: func(in ssa.Instruction, st *PState, e *pathEngine) string {
-				if _, ok := in.(*ssa.Return); ok && in.Parent() == e.r.Fn {
-					return "exit"
-				}
-				return ""
-			},
-			reqs:      func(string) []string { return []string{"seen:ResetFSM"} },
-			minTarget: 1,
-		})
-		ctrlResetFSM := c.fn("controller.(*Controller).ResetFSM")
-		if ctrlResetFSM != nil && fsmReset != nil {
-			n := len(callsIn(ctrlResetFSM, true, fsmReset))
-			r.Check(n > 0, "R4/Controller.ResetFSM/calls-Reset", c.p.Pos(ctrlResetFSM.Pos()), "Controller.ResetFSM calls FSM.Reset", "Controller.ResetFSM no longer resets the FSM: a round interrupt leaves speculative state behind")
-		}
-	}
+	c.ruleSpeculativeReset("R4")
 
 	// ------------------------------------------------------------------ R5
 	c07dropped(c)
@@ -439,4 +322,144 @@ func c07dropped(c *ctx) {
 	}
 	r.Analysed["r5_state_writing_calls_checked"] = checked
 	r.OK("R5/summary", c.p.Pos(applyBlock.Pos()), fmt.Sprintf("%d state-writing call sites with an error result examined in %d reachable functions, %d discarded", checked, len(reach), dropped))
+}
+
+// ruleCachesCleared (C07.R3 / C03.R5): ResetCaches assigns every cache field; Reset = tracker + caches + store.
+func (c *ctx) ruleCachesCleared(R string) {
+	r := c.r
+	resetCaches := c.fn("fsm.(*StateMachine).ResetCaches")
+	slashF := c.field("fsm", "StateMachine", "slashTracker")
+	if resetCaches == nil || slashF == nil {
+		return
+	}
+	cacheT := c.p.Named("fsm", "cache")
+	if r.Anchor(cacheT != nil, "fsm.cache") {
+		written := map[string]bool{}
+		instrs(resetCaches, func(in ssa.Instruction) {
+			if fv, base, _ := storeField(in); fv != nil {
+				if nt := namedOf(base.Type()); nt != nil && nt.Obj() == cacheT.Obj() {
+					written[fv.Name()] = true
+				}
+			}
+		})
+		c.coverCheck(R, "ResetCaches", cacheT, allFields(cacheT), written, map[string]string{"sharedCache": "height-keyed historical validator lists, never mutated by a borrower (C13.R1)"}, c.p.Pos(resetCaches.Pos()))
+	}
+	fsmReset := c.fn("fsm.(*StateMachine).Reset")
+	storeResetM := c.p.IfaceMethod("lib", "StoreI", "Reset")
+	if fsmReset != nil && r.Anchor(storeResetM != nil, "lib.StoreI.Reset") {
+		c.mpt(mptSpec{
+			rule: R, fn: fsmReset,
+			events:  evSet{"ResetCaches": {resetCaches}},
+			extraEv: firstOf(storeFieldEvent("slashTracker=", slashF), invokeEvent(map[*types.Func]string{storeResetM: "store.Reset"})),
+			target: func(in ssa.Instruction, st *PState, e *pathEngine) string {
+				if _, ok := in.(*ssa.Return); ok {
+					return "exit"
+				}
+				return ""
+			},
+			reqs:      func(string) []string { return []string{"seen:ResetCaches", "seen:slashTracker=", "seen:store.Reset"} },
+			minTarget: 1,
+		})
+	}
+
+}
+
+// ruleSpeculativeReset (C07.R4 / C03.R4): proposal / commit entry points reset speculative state on every exit.
+func (c *ctx) ruleSpeculativeReset(R string) {
+	r := c.r
+	fsmReset := c.fn("fsm.(*StateMachine).Reset")
+	validateProposal := c.fn("controller.(*Controller).ValidateProposal")
+	produceProposal := c.fn("controller.(*Controller).ProduceProposal")
+	commitCert := c.fn("controller.(*Controller).CommitCertificate")
+	commitCertPar := c.fnQuiet("controller.(*Controller).CommitCertificateParallel")
+	applyAndValidate := c.fn("controller.(*Controller).ApplyAndValidateBlock")
+	indexQC := c.fn("store.(*Store).IndexQC")
+	indexBlock := c.fn("store.(*Store).IndexBlock")
+	loadProposal := c.fnQuiet("controller.(*Controller).loadProposalBlockLocked")
+	if fsmReset != nil && validateProposal != nil && applyAndValidate != nil {
+		c.mpt(mptSpec{
+			rule: R, fn: validateProposal,
+			events:    evSet{"Reset": {fsmReset}},
+			target:    tgtCall("ApplyAndValidateBlock", applyAndValidate),
+			reqs:      func(string) []string { return []string{"seen:Reset"} },
+			minTarget: 1,
+		})
+	}
+	if fsmReset != nil && produceProposal != nil && loadProposal != nil {
+		c.mpt(mptSpec{
+			rule: R, fn: produceProposal,
+			events:    evSet{"Reset": {fsmReset}},
+			target:    tgtCall("loadProposalBlockLocked", loadProposal),
+			reqs:      func(string) []string { return []string{"deferred:Reset"} },
+			minTarget: 1,
+		})
+	}
+	for _, cc := range []*ssa.Function{commitCert, commitCertPar} {
+		if cc == nil || fsmReset == nil || applyAndValidate == nil || indexQC == nil || indexBlock == nil {
+			continue
+		}
+		c.mpt(mptSpec{
+			rule: R, fn: cc,
+			events: evSet{"Reset": {fsmReset}},
+			target: tgtAny(tgtCall("ApplyAndValidateBlock", applyAndValidate), tgtCall("IndexQC", indexQC), tgtCall("IndexBlock", indexBlock)),
+			reqs: func(l string) []string {
+				if l == "ApplyAndValidateBlock" {
+					return []string{"deferred:Reset", "seen:Reset"}
+				}
+				return []string{"deferred:Reset"}
+			},
+			minTarget: 3,
+		})
+	}
+	// Store.Commit: every error return after setCommitID touched the batch calls Reset
+	storeCommit := c.fn("store.(*Store).Commit")
+	storeReset := c.fn("store.(*Store).Reset")
+	setCommitID := c.fn("store.(*Store).setCommitID")
+	if storeCommit != nil && storeReset != nil && setCommitID != nil {
+		c.mpt(mptSpec{
+			rule: R, fn: storeCommit,
+			events: evSet{"setCommitID": {setCommitID}, "Reset": {storeReset}},
+			target: func(in ssa.Instruction, st *PState, e *pathEngine) string {
+				ret, ok := in.(*ssa.Return)
+				if !ok || in.Parent() != e.r.Fn {
+					return ""
+				}
+				if e.RetNil(ret, errIdx(e.r.Fn), st) == True {
+					return "ok-return"
+				}
+				return "error-return"
+			},
+			reqs: func(l string) []string {
+				if l == "error-return" {
+					return []string{"!seen:setCommitID|seen:Reset"}
+				}
+				return []string{"seen:Reset"}
+			},
+			minTarget: 2,
+		})
+	}
+	// RoundInterrupt -> Controller.ResetFSM
+	roundInterrupt := c.fn("bft.(*BFT).RoundInterrupt")
+	resetFSMm := c.p.IfaceMethod("bft", "Controller", "ResetFSM")
+	if roundInterrupt != nil && r.Anchor(resetFSMm != nil, "bft.Controller.ResetFSM") {
+		c.mpt(mptSpec{
+			rule: R, fn: roundInterrupt,
+			extraEv: invokeEvent(map[*types.Func]string{resetFSMm: "ResetFSM"}),
+			events:  evSet{},
+			target: func(in ssa.Instruction, st *PState, e *pathEngine) string {
+				if _, ok := in.(*ssa.Return); ok && in.Parent() == e.r.Fn {
+					return "exit"
+				}
+				return ""
+			},
+			reqs:      func(string) []string { return []string{"seen:ResetFSM"} },
+			minTarget: 1,
+		})
+		ctrlResetFSM := c.fn("controller.(*Controller).ResetFSM")
+		if ctrlResetFSM != nil && fsmReset != nil {
+			n := len(callsIn(ctrlResetFSM, true, fsmReset))
+			r.Check(n > 0, R+"/Controller.ResetFSM/calls-Reset", c.p.Pos(ctrlResetFSM.Pos()), "Controller.ResetFSM calls FSM.Reset", "Controller.ResetFSM no longer resets the FSM: a round interrupt leaves speculative state behind")
+		}
+	}
+
 }
